@@ -5,7 +5,8 @@
 (* ====================================================================== *)
 Require Import Field Ring Arith Lia List Bool Permutation.
 Require String.
-From TK Require Import Mat_Sums Mat_Core Landmark_Model Landmark_Spec
+From Coq Require Import Floats ZArith.
+From TK Require Import Mat_Sums Mat_Core Landmark_Model Landmark_Float Landmark_Spec
                        Landmark_Proof_Trace Landmark_Proof_Euclid.
 Import ListNotations.
 Import String.StringSyntax.
@@ -184,5 +185,27 @@ Section Main.
     exists ws. split; [exact Hws|].
     destruct (lmds_triangulates_lemma _ _ _ _ _ _ _ _ Hnd Hws) as [H1 [H2 _]].
     split; assumption.
+  Qed.
+  (* the CURRENT validate() (fix F21): an accepted request never leaves the eigenvector matrix:
+     with the landmark count the code computes, target_dimension <= count <= N *)
+  Theorem lmds_validated_no_oob_lemma N d ratio count shuffled dist W w s :
+    Permutation shuffled (seq 0 N) ->
+    lmds_validate N d ratio = true ->
+    n_landmarks_nat N ratio = Some count ->
+    d <= count /\ count <= N /\
+    exists ws, lmds N d shuffled count dist W w s = LOk ws /\
+      (forall x, x < N -> count_occ Nat.eq_dec (map fst ws) x = 1) /\
+      (forall x, In x (map fst ws) -> x < N).
+  Proof.
+    intros HP Hv Hc. unfold lmds_validate in Hv. apply andb_true_iff in Hv. destruct Hv as [_ Hv].
+    unfold n_landmarks_nat in Hc.
+    destruct (n_landmarks_fl N ratio) as [z|]; [|discriminate].
+    destruct ((0 <=? z)%Z && (z <=? Z.of_nat N)%Z) eqn:E; [|discriminate].
+    apply andb_true_iff in E. destruct E as [E1 E2].
+    apply Z.leb_le in E1. apply Z.leb_le in E2. apply Z.leb_le in Hv.
+    inversion Hc; subst count. clear Hc.
+    assert (Hd : d <= Z.to_nat z) by lia. assert (Hn : Z.to_nat z <= N) by lia.
+    split; [exact Hd|]. split; [exact Hn|].
+    apply lmds_total_lemma; assumption.
   Qed.
 End Main.
